@@ -467,7 +467,6 @@ impl ReceiverDisposerD {
 //@@ selfmut
 //@@ param delivery_info : DeliveryInfo
 //@@ subst `let info = delivery_info.into();` => `let info = delivery_info;` rule=R16
-//@@ subst `DeliveryState::Accepted(Accepted {})` => `accepted_state()` rule=R11
 //@@ spec
     requires old(self).processed.v < 0x8000_0000,
     ensures
@@ -482,7 +481,6 @@ impl ReceiverDisposerD {
 //@@ selfmut
 //@@ param delivery_info : DeliveryInfo
 //@@ subst `let info = delivery_info.into();` => `let info = delivery_info;` rule=R16
-//@@ subst `DeliveryState::Released(Released {})` => `released_state()` rule=R11
 //@@ spec
     requires old(self).processed.v < 0x8000_0000,
     ensures
@@ -495,10 +493,17 @@ impl ReceiverDisposerD {
 }
 pub uninterp spec fn accepted_state_spec() -> DeliveryState;
 pub uninterp spec fn released_state_spec() -> DeliveryState;
-#[verifier::external_body]
-pub fn accepted_state() -> (r: DeliveryState) ensures r == accepted_state_spec() { unimplemented!() }
-#[verifier::external_body]
-pub fn released_state() -> (r: DeliveryState) ensures r == released_state_spec() { unimplemented!() }
+/// the opaque DeliveryState of this unit can be BUILT the way the code builds it: `DeliveryState::Accepted(Accepted {})`, `DeliveryState::Released(Released {})` (associated functions named like the variants)
+pub struct Accepted {}
+pub struct Released {}
+impl DeliveryState {
+    #[verifier::external_body]
+    #[allow(non_snake_case)]
+    pub fn Accepted(a: Accepted) -> (r: DeliveryState) ensures r == accepted_state_spec() { unimplemented!() }
+    #[verifier::external_body]
+    #[allow(non_snake_case)]
+    pub fn Released(a: Released) -> (r: DeliveryState) ensures r == released_state_spec() { unimplemented!() }
+}
 
 /// the settle decision of a run: the explicit `settled` argument, else the first delivery's own rcv-settle-mode, else the link's
 pub open spec fn run_will_settle(first: DeliveryInfo, settled: Option<bool>, link_mode: ReceiverSettleMode) -> bool {
